@@ -25,7 +25,7 @@ func membershipFactory.New.$[a,s]
   captures s != nil && s.Snapshot != nil
   requires a != nil && a.Qed != nil && !isnil(a.Notifier) && !isnil(a.SnapshotStore) && !isnil(i.log)
   requires a.Qed.hasherF != nil && pure_fn(a.Qed.hasherF) && nonnil_fn(a.Qed.hasherF)
-  modifies everything, alerts, verifyCalls, lastVerify, lastVerifyHistory, lastVerifyHyper
+  modifies everything, alerts, verifyCalls, lastVerify, lastVerifyHistory, lastVerifyHyper, reqCount, lastReqWasPrimary
   // C19: once verification has been reached, an alert is raised iff it failed
   ensures C19/alert-iff-not-verified: verifyCalls == old(verifyCalls) + 1 ==> (lastVerify ==> alerts == old(alerts)) && (!lastVerify ==> alerts == old(alerts) + 1)
   ensures C19/at-most-one-verification: verifyCalls == old(verifyCalls) || verifyCalls == old(verifyCalls) + 1
@@ -41,7 +41,7 @@ func incrementalFactory.New.$[a,b]
   props C12 C19
   requires a != nil && a.Qed != nil && !isnil(a.Notifier) && !isnil(i.log) && b != nil
   requires a.Qed.hasherF != nil && pure_fn(a.Qed.hasherF) && nonnil_fn(a.Qed.hasherF)
-  modifies everything, alerts, verifyCalls, lastVerify, lastVerifyHistory, lastVerifyHyper
+  modifies everything, alerts, verifyCalls, lastVerify, lastVerifyHistory, lastVerifyHyper, reqCount, lastReqWasPrimary
   ensures C19/alert-iff-not-verified: verifyCalls == old(verifyCalls) + 1 ==> (lastVerify ==> alerts == old(alerts)) && (!lastVerify ==> alerts == old(alerts) + 1)
 
 // ---- publisher --------------------------------------------------------------------
